@@ -2,7 +2,7 @@
 Three mechanical substitutions; if an anchor is missing the build fails (exit 2), it never guesses."""
 import json, os, sys
 
-SRC = "/repo/security/pkg/nodeagent/cache/secretcache.go"
+SRC = os.path.join(os.environ.get("VERIF_REPO", "/repo"), "security/pkg/nodeagent/cache/secretcache.go")
 VERIF = os.path.dirname(os.path.dirname(os.path.abspath(__file__)))
 SUBS = [
     ("generateMutex sync.Mutex", "generateMutex simMutex", 1),
